@@ -669,7 +669,7 @@ fn semantic_failing_files(rng: &mut Rng, n: usize) -> Vec<corpus::TestFile> {
 }
 
 /// the Lean `Reader` model follows the repaired `read_until_image_data` (reservation before the sub-frame is installed)
-const MODEL_FOLLOWS_REFUSED_FRAME_REPAIR: bool = false;
+const MODEL_FOLLOWS_REFUSED_FRAME_REPAIR: bool = true;
 
 /// APNGs (still and interlaced, several colour types) whose first frame is small and whose later frames are wider, each with
 /// a limit under which `[read_info, next_frame, next_frame_info]` answers `[hdr, frame, err(limits)]`
